@@ -17,10 +17,22 @@ type cellPayload struct {
 func addOverflow(db *Database, pl cellPayload) ([]byte, error) {
 	to := pl.Payload
 	overflow := pl.Overflow
+	var seen map[int]struct{} // pages of this chain, to catch loops
 	for {
-		if overflow == 0 {
+		if int64(len(to)) >= pl.Length {
 			return to[:pl.Length], nil
 		}
+		if overflow == 0 {
+			// chain ended before we have the whole payload
+			return nil, ErrCorrupted
+		}
+		if _, ok := seen[overflow]; ok {
+			return nil, ErrCorrupted
+		}
+		if seen == nil {
+			seen = map[int]struct{}{}
+		}
+		seen[overflow] = struct{}{}
 		buf, err := db.page(overflow)
 		if err != nil {
 			return nil, err
